@@ -1,25 +1,4 @@
-import Lean
+import ChipFiring.AuditCmd
 import ChipFiring.Properties
-open Lean Elab Command
-
-/-- print, as JSON lines prefixed `AUDIT`, the axioms every theorem of namespace `CF.Cxx` depends on -/
-elab "#audit_properties" : command => do
-  let env ← getEnv
-  let mut out : Array String := #[]
-  for (name, info) in env.constants.toList do
-    if !name.isInternal then
-      match name.components with
-      | `CF :: p :: _ =>
-        let ps := p.toString
-        if ps.startsWith "C" && ps.length ≤ 4 && (ps.drop 1).all Char.isDigit then
-          match info with
-          | .thmInfo _ =>
-            let axs ← liftCoreM <| Lean.collectAxioms name
-            let axl := ", ".intercalate (axs.toList.map fun a => "\"" ++ toString a ++ "\"")
-            out := out.push ("AUDIT {\"theorem\":\"" ++ toString name ++ "\",\"axioms\":[" ++ axl ++ "]}")
-          | _ => pure ()
-      | _ => pure ()
-  for l in out.qsort (· < ·) do
-    IO.println l
 
 #audit_properties
